@@ -138,8 +138,11 @@ def truncation_obligations(ck, fields):
     tf = ck.index.mod('vermouth/truncating_formatter.py')
     fn = tf.func('TruncFormatter.format_field')
     ck.analysed(tf, fn)
-    start = next((i for i, st in enumerate(fn.body) if isinstance(st, ast.If) and u(st.test) == 'spec.width'), None)
-    ck.ob('FMT-truncation-code', tf.loc(fn), start is not None, 'TruncFormatter.format_field: the truncation part (from `if spec.width:`) was located', key='FMT-truncation-code|located')
+    # the truncation part = everything after the statement that parses the format spec into `spec`
+    parse_at = next((i for i, st in enumerate(fn.body) if isinstance(st, ast.Assign) and u(st.targets[0]) == 'spec' and isinstance(st.value, ast.Call)
+                     and call_name(st.value) == 'FormatSpec'), None)
+    start = parse_at + 1 if parse_at is not None and parse_at + 1 < len(fn.body) else None
+    ck.ob('FMT-truncation-code', tf.loc(fn), start is not None, 'TruncFormatter.format_field: the truncation part (after the format spec is parsed into `spec`) was located', key='FMT-truncation-code|located')
     if start is None:
         return
     tail = fn.body[start:]
@@ -287,8 +290,17 @@ def run(ck):
     if rng:
         r_start = try_fold(rng[0].args[0], cenv)
         r_stride = try_fold(rng[0].args[2], cenv)
-        loop = pdb.enclosing(rng[0], ast.For)
-        lv = loop.target.id if loop is not None and isinstance(loop.target, ast.Name) else None
+        # the loop over the cells: a `for` statement or a comprehension whose iterable is that range
+        loop = None
+        for anc in pdb.ancestors(rng[0]):
+            if isinstance(anc, ast.For) and anc.iter is rng[0]:
+                loop = anc
+                break
+            if isinstance(anc, (ast.ListComp, ast.GeneratorExp, ast.SetComp)) and any(g.iter is rng[0] for g in anc.generators):
+                loop = anc
+                break
+        tgt = loop.target if isinstance(loop, ast.For) else next((g.target for g in loop.generators if g.iter is rng[0]), None) if loop is not None else None
+        lv = tgt.id if isinstance(tgt, ast.Name) else None
         slices = [n for n in ast.walk(loop) if isinstance(n, ast.Subscript) and isinstance(n.slice, ast.Slice)] if loop is not None else []
         ok_slice = False
         for s in slices:
